@@ -1330,8 +1330,20 @@ class Summaries:
                             d = eng.num_sub(st, hi, lo, hi.ty)
                             ln = NumV(d.sym, d.k, 'usize')
                 return CollV(kind, rty, next(_c), length=ln, prov=('collect-range', lo, hi))
+            # any other source (characters of an unknown string, an opaque iterator ...): the adaptor
+            # closures are analysed on an arbitrary element, which also summarises the elements
+            el = None
+            if isinstance(it, IterV):
+                try:
+                    outs = [(s2, y) for (s2, y) in iter_elem(ctx, st.fork(), it) if y is not None]
+                except Infeasible:
+                    outs = []
+                if len(outs) == 1 and isinstance(outs[0][1], (NumV, CharV, StrV)) and not isinstance(outs[0][1], RefV):
+                    y = outs[0][1]
+                    if isinstance(y, CharV) and y.known is None:
+                        el = CharV(None, next(_c))
             return CollV(kind, rty, next(_c), length=eng.fresh_num(st, 'usize', 0, 2**40) if kind == 'vec' else None,
-                         prov=('collect', None))
+                         elem=el, prov=('collect', None))
 
         def is_str(ty):
             from .engine import is_str_ty
@@ -1980,6 +1992,31 @@ class Summaries:
             ctx.oblige('precondition', 'str range index in bounds and on a char boundary', ok, facts)
             return res
 
+        @regx(r'^core::str::<impl str>::split_at$')
+        def _(ctx):
+            sv = sval(ctx, ctx.args[0])
+            i = ctx.args[1]
+            st = ctx.st
+            ok = False
+            facts = repr(sv)
+            a = StrV(None, oid=next(_c), prov=('split', 0))
+            b = StrV(None, oid=next(_c), prov=('split', 1))
+            if isinstance(i, NumV) and i.sym is None:
+                if isinstance(sv, StrV) and sv.known is not None:
+                    bs = sv.known.encode('utf-8')
+                    if 0 <= i.k <= len(bs) and _is_boundary(sv.known, i.k):
+                        ok = True
+                        a, b = StrV(bs[:i.k].decode('utf-8')), StrV(bs[i.k:].decode('utf-8'))
+                elif isinstance(sv, StrV) and sv.prov and sv.prov[0] == 'table-value':
+                    vals = sv.prov[2]
+                    ok = all(len(v.encode()) >= i.k and _is_boundary(v, i.k) for v in vals)
+                    facts = 'table %s values %r' % (sv.prov[1], vals)
+                    if ok:
+                        a = StrV(None, oid=next(_c), prov=('table-value-slice', sv.prov[1], tuple(v.encode()[:i.k].decode() for v in vals)))
+                        b = StrV(None, oid=next(_c), prov=('table-value-slice', sv.prov[1], tuple(v.encode()[i.k:].decode() for v in vals)))
+            ctx.oblige('precondition', 'str::split_at index in bounds and on a char boundary', ok, facts)
+            return StructV(ctx.ret_ty, {'0': a, '1': b})
+
         def _is_boundary(s, i):
             b = s.encode('utf-8')
             if i == len(b):
@@ -2365,6 +2402,18 @@ class Summaries:
                     kn = [kv for kv in kn if kv[0].key() != k.key()]
                     kn.append((k, v))
                 known = tuple(kn)
+            elif isinstance(sv, IterV):
+                ex = exact_items(ctx, ctx.st, sv)
+                if ex is not None and len(ex) == 1 and ex[0][0] is ctx.st and c.known is not None and all(_is_const(k) for k, _ in c.known):
+                    add = build_known('map', ex[0][1])
+                    if add is not None:
+                        kn = list(c.known)
+                        for (k, v) in add:
+                            kn = [kv for kv in kn if kv[0].key() != k.key()]
+                            kn.append((k, v))
+                        known = tuple(kn)
+                elif ex is None:
+                    analyse_adaptors(ctx, ctx.st, sv)
             bump(ctx, path, c, known=known, length=None)
             return UNIT
 
